@@ -32,6 +32,20 @@ def host_pool_len():
         for t in (b"", b".", b"..", b"..."):
             out.add(d + t)
         out.add(b"1" * 1 + d[1:])
+    for n in list(range(60, 70)) + list(range(120, 131)):
+        for unit in (b"a.", b"1.", b"a-b.", b"ab."):
+            body = unit * n
+            for tail in (b"c", b"com", b"", b"1"):
+                d = body + tail
+                out.add(d)
+                out.add(d.rstrip(b".") if tail == b"" else d + b".")
+    for pos in range(4):
+        labs = [b"b" * 61] * 4
+        labs[pos] = b"c" * 63
+        out.add(b".".join(labs))
+        out.add(b".".join(labs) + b".")
+        labs[pos] = b"c" * 64
+        out.add(b".".join(labs))
     for t in (b"a", b"a.b", b"1.2", b"1", b"1a", b"a-b"):
         for dots in range(0, 4):
             out.add(t + b"." * dots)
